@@ -26,8 +26,19 @@ func Scan(data string, loc SourceLoc, delims []string) (tokens []Token) {
 	// TODO error on unterminated {{ and {%
 	// TODO probably an error when a tag contains a {{ or {%, at least outside of a string
 	p, pe := 0, len(data)
-	for _, m := range tokenMatcher.FindAllStringSubmatchIndex(data, -1) {
+	for p < pe {
+		// the next match at or after p, as FindAll would find it (the pattern never matches the empty string)
+		m := tokenMatcher.FindStringSubmatchIndex(data[p:])
+		if m == nil {
+			break
+		}
+		for i := range m {
+			if m[i] >= 0 {
+				m[i] += p
+			}
+		}
 		ts, te := m[0], m[1]
+		endName := ""
 		if p < ts {
 			tokens = append(tokens, Token{Type: TextTokenType, SourceLoc: loc, Source: data[p:ts]})
 			loc.LineNo += strings.Count(data[p:ts], "\n")
@@ -67,6 +78,9 @@ func Scan(data string, loc SourceLoc, delims []string) (tokens []Token) {
 				tok.Args = data[m[6]:m[7]]
 			}
 			tokens = append(tokens, tok)
+			if tok.Name == "raw" || tok.Name == "comment" {
+				endName = "end" + tok.Name
+			}
 			if source[len(source)-len(delims[3])-1] == '-' {
 				tokens = append(tokens, Token{
 					Type: TrimRightTokenType,
@@ -75,11 +89,25 @@ func Scan(data string, loc SourceLoc, delims []string) (tokens []Token) {
 		}
 		loc.LineNo += strings.Count(source, "\n")
 		p = te
+		// raw and comment are lexical: what stands between the tag and the block's end tag is text,
+		// whatever it looks like; without an end tag the block is unterminated and scanning goes on as usual
+		if endName != "" {
+			if e := formEndTagMatcher(delims, endName).FindStringIndex(data[p:]); e != nil && e[0] > 0 {
+				tokens = append(tokens, Token{Type: TextTokenType, SourceLoc: loc, Source: data[p : p+e[0]]})
+				loc.LineNo += strings.Count(data[p:p+e[0]], "\n")
+				p += e[0]
+			}
+		}
 	}
 	if p < pe {
 		tokens = append(tokens, Token{Type: TextTokenType, SourceLoc: loc, Source: data[p:]})
 	}
 	return tokens
+}
+
+// formEndTagMatcher matches the end tag (`{% endraw %}`, `{%- endcomment -%}`) of a raw or comment block.
+func formEndTagMatcher(delims []string, name string) *regexp.Regexp {
+	return regexp.MustCompile(regexp.QuoteMeta(delims[2]) + `-?\s*` + name + `\s*-?` + regexp.QuoteMeta(delims[3]))
 }
 
 func formTokenMatcher(delims []string) *regexp.Regexp {
